@@ -646,11 +646,20 @@ def solve_temperature_facts():
                 raise TranslateError("direction switch threshold is not a literal")
             thr = sign * kernels.literal_fraction(c, mod.text)
             order.append("switch")
+        elif isinstance(s, ast.Assign) and is_name(s.targets[0], "branch_lookups"):
+            # the thermal adaptions of the components address their rows of the THERMALLY reduced pit
+            if src != "branch_lookups = get_lookup(net, 'branch', 'from_to_active_heat_transfer')":
+                raise TranslateError("solve_temperature: component row lookup is not the thermal one: " + src)
+            order.append("lookup")
         elif isinstance(s, ast.For) and "adaption_before_derivatives_thermal" in src:
+            if "branch_lookups" not in src:
+                raise TranslateError("thermal before-hooks are not given branch_lookups")
             order.append("before")
         elif isinstance(s, ast.Expr) and is_call(s.value, "calculate_derivatives_thermal"):
             order.append("derivatives")
         elif isinstance(s, ast.For) and "adaption_after_derivatives_thermal" in src:
+            if "branch_lookups" not in src:
+                raise TranslateError("thermal after-hooks are not given branch_lookups")
             order.append("after")
         elif isinstance(s, ast.If) and "check_infeed_number" in ast.unparse(s.test):
             order.append("check_infeed")
@@ -665,7 +674,7 @@ def solve_temperature_facts():
         elif isinstance(s, ast.AugAssign):
             updates.append(src)
             order.append("update")
-    want_order = ["switch", "before", "derivatives", "after", "check_infeed", "build", "solve", "update", "update"]
+    want_order = ["lookup", "switch", "before", "derivatives", "after", "check_infeed", "build", "solve", "update", "update"]
     if order != want_order:
         raise TranslateError("solve_temperature stage order %s, expected %s" % (order, want_order))
     want_updates = ["node_pit[:, TINIT] -= x[:len(node_pit)] * options['alpha']",
@@ -683,7 +692,17 @@ def gen_thermexpr():
     k, wb, wn = thermal_slice()
     kcp = k_branch_cp()
     thr = solve_temperature_facts()
+    sig = []
+    for tw in ("np", "nb"):
+        kt = kernels.k_therm(tw)
+        sig.append(("therm_" + tw, [nm for nm, _ in kt.signature()]))
+    sig.append(("thermexpr", [nm for nm, _ in k.signature()]))
+    sig.append(("branch_cp", [nm for nm, _ in kcp.signature()]))
     extra = ["From Coq Require Import String List ZArith.", "Import ListNotations.",
+             "(* which pit column / parameter each positional input of the generated kernels is (the Coq definitions are",
+             "   positional: this table pins e.g. that the diameter in the heat-loss term is the column DO, not D) *)",
+             "Definition therm_kernel_inputs : list (string * list string) := [%s]." %
+             "; ".join("(%s, [%s])" % (cstr(n), "; ".join(cstr(x) for x in l)) for n, l in sig),
              "(* write-back of the kernel outputs in calculate_derivatives_thermal: (pit column, kernel output) *)",
              "Definition therm_wiring_branch : list (string * string) := [%s]." %
              "; ".join("(%s, %s)" % (cstr(c), cstr(v)) for c, v in wb),
@@ -806,6 +825,9 @@ def gen_hooks():
     hexw = hex_pit_wiring()
     gname = {"mf": "GMf", "tr": "GTr", "dt": "GDt", "qe": "GQe"}
     extra = ["From Coq Require Import String List ZArith.", "Import ListNotations.",
+             "(* positional inputs of the generated hook kernels *)",
+             "Definition hook_kernel_inputs : list (string * list string) := [%s]." %
+             "; ".join("(%s, [%s])" % (cstr(kk.name), "; ".join(cstr(nm) for nm, _ in kk.signature())) for kk in ks),
              "(* HeatConsumer class constants *)",
              "Definition hc_consts : list (string * Z) := [%s]." %
              "; ".join("(%s, %d%%Z)" % (cstr(k), v) for k, v in sorted(consts.items())),
